@@ -14,6 +14,8 @@ Init == /\ t \in Times
            \/ u = t /\ d \in Durs
         /\ ts = t.s /\ tn = t.ns /\ us = u.s /\ un = u.ns /\ ds = d.s /\ dn = d.ns
 Next == UNCHANGED <<t, u, d, ts, tn, us, un, ds, dn>>
+\* the invariants of TimeArithCode.tla itself, so that one TLC run checks both modules
+CodeInv == C!Exact /\ C!NoPanic /\ C!Laws /\ C!Normalised
 Conv(r) == IF r = C!PANIC THEN <<2, 0, 0>> ELSE IF r.some THEN <<1, r.s, r.ns>> ELSE <<0, 0, 0>>
 Same ==
     /\ A!CodeAdd(ts, tn, ds, dn) = Conv(C!CheckedAddDur(t, d))
